@@ -29,7 +29,7 @@ Chk(cond, e, i, p, clause) == IF cond THEN TRUE ELSE Say(e, i, p, clause)
 ObjIdx(x) == CHOOSE i \in DOMAIN ObjQ : ObjQ[i] = x
 Proj(o) == [fmt |-> o.fmt, codes |-> o.codes, cfg |-> o.cfg, st |-> o.st]
 \* which property a deviation of the TARGET's value/format belongs to, by the kind of call
-ValueProp(a) == CASE a.act \in {"New", "Store", "SetItem"} -> "C01" [] a.act = "SetItemFxp" -> "C10"
+ValueProp(a) == CASE a.act \in {"New", "NewLike", "Store", "SetItem"} -> "C01" [] a.act = "SetItemFxp" -> "C10"
                   [] a.act \in {"Resize", "CtorLike", "Like", "LikeShallow", "Assign", "DeepCopy", "CopyShallow"} -> "C10"
                   [] a.act = "BinOp" -> "C07" [] a.act = "BinOpOut" -> "C08" [] a.act = "Neg" -> "C08" [] a.act \in {"RShiftKeep", "LShiftKeep"} -> "C14" [] a.act = "Invert" -> "C13"
                   [] OTHER -> "C20"
